@@ -27,6 +27,9 @@ Fixpoint of_scmd (c : scmd) : sx :=
   | SRedrawOther s => L [I 17%Z; of_nat s]
   | SCloseOther s => L [I 18%Z; of_nat s]
   | SGetUserInput => L [I 11%Z]
+  | SSetTypeAhead b => L [I 19%Z; of_bool b]
+  | SHandlerAsk h b => L [I 20%Z; of_nat h; of_bool b]
+  | SHandlerWait h => L [I 21%Z; of_nat h]
   | SSetInputRequired b => L [I 12%Z; of_bool b]
   | SSetAnswer a => L [I 13%Z; of_answer a]
   | SMark n => L [I 14%Z; of_nat n]
